@@ -42,6 +42,10 @@ def run(ctx) -> None:
 
     ctx.reuse("C06.step-guard", c02.no_swallow)
     ctx.guard("C06.partition", partition_volume)
+    # a split transfer is not refused for being too large: the record validator takes every volume up to the format's limit
+    from . import c09 as _c09
+
+    ctx.reuse("C06.step-guard", _c09.validator_numbers)
     ctx.guard("C06.multi-disp", multi_disp)
     # ... and the volume the reduction was computed from is the volume the record carries (multi_disp * <printed volume>)
     from . import c09
@@ -541,6 +545,11 @@ def _check_list(ctx, rule, fv, f, rn, lname: str, pv: Poly, pm: Poly) -> None:
             other = [a for a in term.args if not is_name(a, "max_volume")][0]
             upper = True
             lower = True if (quotient_ok(other) or (call_fname(other) == "ceil" and other.args and quotient_ok(other.args[0]))) else None
+            # the floored quotient (`//`, floor / int / round of it) is below volume/steps
+            floored = isinstance(other, ast.BinOp) and isinstance(other.op, ast.FloorDiv) and is_name(other.left, "volume") and nterm is not None and key(other.right) == key(nterm)
+            floored = floored or (call_fname(other) in ("floor", "trunc", "int", "round", "rint") and getattr(other, "args", None) and quotient_ok(other.args[0]))
+            if floored:
+                lower = False
         elif fn in ("round", "floor", "int", "trunc") and term.args and (quotient_ok(term.args[0])):
             lower = False
         elif fn in ("min", "max", "minimum", "maximum") and len(term.args) >= 2:
